@@ -9,7 +9,7 @@ use serde_json::{json, Value};
 pub const DEF: PropDef = PropDef {
     id: "C01",
     level: "exploration",
-    rule: "complete enumeration of (1) all strings over a 28-symbol alphabet with one representative per lexer branch, all strings of length <=3 over every printable ASCII character plus tab / CR / LF, all strings of length 4 (thorough 5) over ASCII punctuation and blanks, (2) all space-joined sequences over an 83-lexeme alphabet covering every token type, (3) the full single-edit (and, thorough, bounded double-edit) lexeme neighbourhood of a corpus of valid programs, (4) a fixed nesting-depth family with runs of 1000 / 30 000 / 200 000 repetitions of 20 ignorable or repeatable units (comments, blank lines, punctuation, statements, list elements) alone and inside statements, (5) 41 Unicode class representatives (non-ASCII white space and look-alikes, non-ASCII digits and numerals, letters whose case mappings change length, title-case and caseless letters, combining marks, joiners, astral characters, typographic quotes) alone and in all pairs in 20 lexical positions, (6) tokens of every byte length 0..140 and around 256 / 1024 / 4096 / 65536 with a multi-byte tail (2-, 3-, 4-byte characters) in 10 token kinds an error message can quote; each text is parsed in the checked and in the release build; non-trivial = the text lexes to at least 2 tokens or contains an error token; distinct = distinct text",
+    rule: "complete enumeration of (1) all strings over a 28-symbol alphabet with one representative per lexer branch, all strings of length <=3 over every printable ASCII character plus tab / CR / LF, all strings of length 4 (thorough 5) over ASCII punctuation and blanks, (2) all space-joined sequences over a 90-lexeme alphabet covering every token type (incl. keywords and pronouns glued to an apostrophe suffix), (3) the full single-edit (and, thorough, bounded double-edit) lexeme neighbourhood of a corpus of valid programs, (4) a fixed nesting-depth family with runs of 1000 / 30 000 / 200 000 repetitions of 20 ignorable or repeatable units (comments, blank lines, punctuation, statements, list elements) alone and inside statements, (5) 41 Unicode class representatives (non-ASCII white space and look-alikes, non-ASCII digits and numerals, letters whose case mappings change length, title-case and caseless letters, combining marks, joiners, astral characters, typographic quotes) alone and in all pairs in 20 lexical positions, (6) tokens of every byte length 0..140 and around 256 / 1024 / 4096 / 65536 with a multi-byte tail (2-, 3-, 4-byte characters) in 10 token kinds an error message can quote; each text is parsed in the checked and in the release build; non-trivial = the text lexes to at least 2 tokens or contains an error token; distinct = distinct text",
     assumptions: &[
         "the checked build (debug-assertions, overflow-checks) turns every violated unsafe precondition of rrss into a panic; release-only misbehaviour is observed through the differential of the rendered result",
         "hang = a single parse burning more than 10 s of CPU", "the checked build is opt-level 1 with debug assertions and overflow checks; the depth family additionally runs through the unoptimised debug build of the rrss binary (rrss lint FILE: parse + lint passes), where recursion that an optimiser would turn into a loop still consumes stack",
